@@ -15,7 +15,7 @@ import os
 
 LEVEL = "model_checking"
 
-NEED = ["nodes:1", "nodes:3", "mode:unkeyed", "mode:rowkeys", "mode:colkeys", "mode:both", "target:same",
+NEED = ["nodes:1", "nodes:3", "replicas:2", "replicas:3", "mode:unkeyed", "mode:rowkeys", "mode:colkeys", "mode:both", "target:same",
         "shape:shard-without-fragment", "shape:emptied-fragment", "shape:partial-last-batch",
         "shape:full-last-batch", "shape:empty-field", "rowkey:comma", "rowkey:quote", "rowkey:newline",
         "rowkey:unicode", "rowkey:space", "colkey:comma", "colkey:quote", "colkey:unicode"]
@@ -28,17 +28,22 @@ def run(ctx):
     r = ctx.generate("Cli", bfs_cfg, mode="bfs", timeout=600)
     ctx.drive("bind/clib", "TestC30", beh=r.behaviours, env={"VERIF_SLOTS": 1}, label="C30/" + bfs_cfg, timeout=2400)
     # seeded sample of the large family: 3 rows x 2 columns per shard, clears, all buffers
-    s = ctx.generate("Cli", "C30_sim", mode="simulate", num=4000 if thorough else 220, depth=6, timeout=600)
-    # the sample is split: most of it on one node, the rest on a 3-node cluster (the export has to
-    # fetch every shard from its owner, the import to route every shard to its owner, keyed
-    # imports go through the coordinator)
+    s = ctx.generate("Cli", "C30_sim", mode="simulate", num=4000 if thorough else 230, depth=6, timeout=600)
+    # the sample is split: most of it on one node, the rest on 3-node clusters with 2 and with 3
+    # replicas (the export has to fetch every shard from an owner, the import to deliver every
+    # shard to ALL its owners, keyed imports go through the coordinator); after the import
+    # command every owner's own fragment must hold the bits, and the owners' exports must agree
     lines = open(s.behaviours).read().splitlines(True)
-    cut = max(1, len(lines) - (800 if thorough else 50))
-    one, three = os.path.join(ctx.scratch, "C30_sim_1.ndjson"), os.path.join(ctx.scratch, "C30_sim_3.ndjson")
-    open(one, "w").writelines(lines[:cut])
-    open(three, "w").writelines(lines[cut:])
-    ctx.drive("bind/clib", "TestC30", beh=one, env={"VERIF_SLOTS": 2}, label="C30/C30_sim", timeout=2400)
-    ctx.drive("bind/clib", "TestC30", beh=three, env={"VERIF_SLOTS": 2, "VERIF_NODES": 3}, label="C30/C30_sim/3nodes", timeout=2400)
+    ncl = 800 if thorough else 60
+    cut = max(1, len(lines) - ncl)
+    mid = cut + (len(lines) - cut) * 3 // 5
+    parts = [("1", lines[:cut], {"VERIF_SLOTS": 2}),
+             ("3nodes-r2", lines[cut:mid], {"VERIF_SLOTS": 2, "VERIF_NODES": 3, "VERIF_REPLICAS": 2}),
+             ("3nodes-r3", lines[mid:], {"VERIF_SLOTS": 2, "VERIF_NODES": 3, "VERIF_REPLICAS": 3})]
+    for name, part, env in parts:
+        path = os.path.join(ctx.scratch, "C30_sim_%s.ndjson" % name)
+        open(path, "w").writelines(part)
+        ctx.drive("bind/clib", "TestC30", beh=path, env=env, label="C30/C30_sim/" + name, timeout=2400)
     missing = [k for k in NEED if not ctx.extra_cov.get(k)]
     if missing:
         ctx.inconclusive.append("vacuous run: shapes never reached: %s" % ", ".join(missing))
@@ -53,5 +58,5 @@ def run(ctx):
                     "github.com/pilosa/pilosa/test in-process server"]
     ctx.assumptions += ["the empty string is not a key (PQL and the wire format treat it as 'no key')",
                         "column-keyed sources use one shared index whose keys were placed in three shards by a pre-written translate log (a fresh index keeps all keyed columns in shard 0)",
-                        "set fields (the property's scope); one node, and a 3-node cluster without replication for part of the sample"]
+                        "set fields (the property's scope); one node, and 3-node clusters with 2 and 3 replicas for part of the sample"]
     ctx.exhaustive = False
